@@ -247,6 +247,17 @@ func xzCases(seed uint64, label uint64, count int, big bool) []xzCase {
 		}
 		k.N = pickLen(r, k)
 		constrain(&k, big)
+		if i >= 200 && i%16 == 11 && k.LC+k.LP <= 4 && k.Part != "bytes" {
+			// content built against the range coder's arithmetic under this case's properties
+			// (see gen "carry:"): runs of held-back bytes in the first chunk of a block, some of
+			// them tens of KiB into the chunk; n is ignored
+			rr := prng.New(seed, label, 98, uint64(i)) // own generator: the other draws stay as they were
+			k.Family = fmt.Sprintf("carry:%d%d%d:%d:%d:%s:%d", k.LC, k.LP, k.PB, rr.Pick(0, 30, 300, 1500, -20000, -50000), rr.Pick(6, 12, 40, 150), []string{"c", "n"}[rr.Intn(2)], rr.Pick(64, 64, 128))
+			k.N = 0
+			if k.BlockSize > 0 && k.BlockSize < 4096 {
+				k.BlockSize = 0
+			}
+		}
 		if k.LC+k.LP > 4 {
 			cfg := k.config()
 			if cfg.Verify() != nil {
